@@ -260,7 +260,10 @@ def check_fuzz(case, ctx):
             raise Violation("C19/fuzz/varint-truncated-accepted", "read_varint(%s) returned %r" % (data.hex(), val))
     else:
         want = data[0] if need == 1 else int.from_bytes(data[1:need], "little")
-        if st_ == "exc" or val != want:
+        canonical = need == 1 or want >= {3: 0xFD, 5: 0x10000, 9: 0x100000000}[need]
+        if st_ == "exc" and not canonical:
+            ctx.count("non-canonical-varint-rejected (not judged)")
+        elif st_ == "exc" or val != want:
             raise Violation("C19/fuzz/varint-value", "read_varint(%s) -> %r, expected %d" % (data[:9].hex(), val, want))
 
 
